@@ -5,8 +5,8 @@
     claims that are not by construction: the code is the same with and without a source map, for every tree
     and therefore for every input, and the code of a top-level item does not depend on its siblings.
     OBLIGATIONS: C15_sm_independent C15_generate_is_compose C15_cli_lsp_same_code C15_step_independent_of_position
-                 C15_file_is_concatenation C15_sibling_independent C15_nonvacuous *)
-From GV Require Import Compiler.Compile Proofs.EmitProofs.
+                 C15_file_is_concatenation C15_sibling_independent C15_accepted_file_is_concatenation C15_nonvacuous *)
+From GV Require Import Compiler.Compile Proofs.EmitProofs Proofs.ParserShapeProofs.
 Open Scope N_scope.
 
 (** with and without a source map the emitter writes the same chunks and ends with the same error *)
@@ -54,6 +54,20 @@ Theorem C15_sibling_independent : forall pkg user pre post pkg' user' pre' post'
     (header_text pkg' user' ++ List.concat (map item_text pre')) ++ item_text t ++ List.concat (map item_text post').
 Proof. exact sibling_independent. Qed.
 Print Assumptions C15_sibling_independent.
+
+(** the two hypotheses above hold for every input the generator accepts: its output is the header followed by each
+    top-level item's own code *)
+Theorem C15_accepted_file_is_concatenation : forall input out,
+  cli_generate input = Some out ->
+  exists pkg user items,
+    compile_parse input = ODone (Node (KRoot pkg user) items) None /\
+    Forall item items /\ Forall (fun n => item_err n = None) items /\
+    out = header_text pkg user ++ List.concat (map item_text items).
+Proof.
+  intros input out H. destruct (accepted_file_is_header_and_items input out H) as (pkg & user & items & H1 & _ & H3 & H4 & H5).
+  exists pkg, user, items. auto.
+Qed.
+Print Assumptions C15_accepted_file_is_concatenation.
 
 (** the hypotheses are met by what the parser produces for a file with Go code and two templates *)
 Definition itemb (n : node) : bool := match n with Node (KCode _) _ | Node (KGoht _) _ => true | _ => false end.
